@@ -1,19 +1,39 @@
 """C06 — checking has no effects and soundly approximates opening."""
 from .. import common as C
 from .. import evalgen as G
+from . import c06_schema_cases as SC     # the schema clause: generators, conformance of providers, wire of the schema part
 
 ID = "C06"
-impl_prop = "EV"
+impl_prop = "C06S"        # harness/cmd/implrun/c06schema.go: the EV three-run answer + Environment.Schema + opened JSON
 SRC_FACTS = []
 COQ_SAMPLE = 30
 RULE = ("worlds mixing static data, plaintext and ciphertext secrets, references, built-ins and providers (constant outputs "
         "with closed record/tuple/scalar schemas, echo, failing), each evaluated three times: check, check with showSecrets, "
-        "open; all three compared with the model in the same mode; oracle on the implementation: no Open in check, no Decrypt "
-        "unless showSecrets, and approx(check, open).  non-trivial = the open run calls a provider or the decrypter")
+        "open; all three compared with the model in the same mode (value, diagnostics flag, call log, and the schema of the "
+        "root value); oracle on the implementation: no Open in check, no Decrypt "
+        "unless showSecrets, and approx(check, open).  Schema clause (Corr/C06Schema.v, implementation alone): in every case "
+        "whose open run has no diagnostics and no unknowns and whose called providers returned values their declared output "
+        "schemas accept (computed per case), vspec (JSON Schema 2020-12) must not reject the opened value against the "
+        "Environment.Schema of either check run; extra families: one provider output consumed through access / interpolation / "
+        "join / toJSON / toString / toBase64 / arrays / nested objects / merged under and over literals of imports / inputs of a "
+        "second provider, with exact, loose (partial records, open tuples, bare types) and `always` declared schemas; "
+        "literal-only import graphs; providers declaring anyOf / oneOf of records (schema oracle only).  "
+        "non-trivial = the open run calls a provider or the decrypter, or the case is inside the schema clause's hypothesis "
+        "and decided")
 ASSUMPTIONS = ["'objects keep at least the properties check reports' is checked as key inclusion; whether an extra key of the "
                "opened value sits above an unknown base is not visible in the exported value and is not decided",
-               "the schema clause (check's Environment.Schema accepts the opened value) is exercised for the closed "
-               "record/tuple/scalar outputs of the generator through the model's schema functions"]
+               "schema clause: decided by vspec on esc's schema JSON minus annotations (title, description, default, "
+               "deprecated, examples, secret) and minus `\"type\": \"\"` (esc's spelling of an absent type); schemas or values "
+               "outside Model/Schema.v's vocabulary ($ref/$defs, non-integral numerals, unknown keywords) are counted as "
+               "outside (distribution.schema_clause), never guessed",
+               "schema clause: `providers conform` is computed in Python (props/c06_schema_cases.conforms) from the constant "
+               "and the declared output schema of every provider the open run called; echo providers declare `always`",
+               "model vs implementation on schemas: Environment.Schema of all three runs is compared with the evaluator model's "
+               "schema of the root value (top_sch of the root chain, merged once more with the base's as eval.go:123-130 does) "
+               "after projecting esc's schema onto the model's vocabulary (type / prefixItems+items / properties+"
+               "additionalProperties / oneOf / true / false; const, required and annotations projected away); a difference is a "
+               "`mismatch`; implementation schemas outside that vocabulary (anyOf of providers) are skipped and counted "
+               "(coverage.schema_model_vs_impl)"]
 TRUSTED = []
 
 
@@ -54,31 +74,50 @@ def unknown_member_stringified(rng):
 
 
 def gen(rng, tier):
-    n = 4000 if tier == "thorough" else 350
-    cases = [merged_over_unknown(rng.fork("m%d" % i)) for i in range(40 if tier == "thorough" else 16)]
-    cases += [unknown_member_stringified(rng.fork("u%d" % i)) for i in range(120 if tier == "thorough" else 40)]
+    thorough = tier == "thorough"
+    n = 4000 if thorough else 350
+    cases = [merged_over_unknown(rng.fork("m%d" % i)) for i in range(40 if thorough else 16)]
+    cases += [unknown_member_stringified(rng.fork("u%d" % i)) for i in range(120 if thorough else 40)]
     cases += G.flag_matrix_worlds()
     for i in range(n):
         clean = rng.chance(3, 4)
         g = G.RichGen(rng.fork("w%d" % i), bad_refs=not clean, nonobject_inputs=False, faulty=not clean)
-        cases.append(g.world(depth=2))
+        # the loose / bare output schemas RichGen picks blindly are re-declared so that most of them conform (schema clause)
+        cases.append(SC.fix_world(rng.fork("fx%d" % i), g.world(depth=2)))
+    # ---- the schema clause's own families ----
+    cases += SC.regression_worlds()
+    cases += [SC.consumer_world(rng.fork("sc%d" % i)) for i in range(3000 if thorough else 260)]
+    cases += [SC.literal_world(rng.fork("sl%d" % i)) for i in range(600 if thorough else 60)]
+    cases += [SC.union_world(rng.fork("su%d" % i)) for i in range(600 if thorough else 60)]
     return cases
 
 
 def prepare(c):
-    return G.request(c, multi=[{"check": True, "show": False}, {"check": True, "show": True}, {"check": False, "show": False}])
+    extra = {"json_provs": True} if c.get("schema_only") else {}
+    return G.request(c, multi=[{"check": True, "show": False}, {"check": True, "show": True}, {"check": False, "show": False}],
+                     **extra)
 
 
-def line(c, o):
+def multi_of(o):
     m = o.get("multi") or [{"crash": "missing"}] * 3
     if "crash" in o or "panic" in o:
         m = [o, o, o]
-    return "(c06 %s %s %s %s %s %s)" % (G.sx(c["name"]), G.w_envdef(c["def"]), G.w_world(c), G.w_obs(m[0]), G.w_obs(m[1]), G.w_obs(m[2]))
+    return m
+
+
+def line(c, o):
+    m = multi_of(o)
+    if c.get("schema_only"):
+        # providers declaring unions: outside the evaluator model's vocabulary; the schema oracle alone
+        return "(c06s %s %s)" % (G.w_envdef(c["def"]), SC.schema_part(c, m))
+    return "(c06 %s %s %s %s %s %s %s)" % (G.sx(c["name"]), G.w_envdef(c["def"]), G.w_world(c), G.w_obs(m[0]), G.w_obs(m[1]),
+                                          G.w_obs(m[2]), SC.schema_part(c, m))
 
 
 def describe(c):
-    return {"root": G.render_env(c["def"]), "imports": {n: G.render_env(e["def"]) for n, e in c["envs"].items()},
-            "providers": {k: {"out": v["out"], "beh": v["beh"]} for k, v in c["provs"].items()}}
+    return {"root": G.render_env(c["def"]), "imports": {n: G.render_env(e["def"]) for n, e in c["envs"].items() if e["kind"] == "def"},
+            "providers": {k: dict({"out": v["out"], "beh": v["beh"]}, **({"returns": SC.plain(v["const"])} if v["beh"] == "const" else {}))
+                          for k, v in c["provs"].items()}}
 
 
 def shrink(c):
@@ -91,6 +130,7 @@ def shrink(c):
 
 def distribution(cases, r):
     d = {"open_runs_with_provider_call": 0, "open_runs_with_decrypt": 0, "open_runs_with_errors": 0, "crash_or_panic": 0}
+    d["schema_clause"] = SC.measure(ID, cases, r)
     for c, o in zip(cases, r["obs"]):
         m = o.get("multi") or []
         if len(m) == 3:
@@ -101,3 +141,7 @@ def distribution(cases, r):
         if "crash" in o or "panic" in o:
             d["crash_or_panic"] += 1
     return d
+
+
+def extra_evidence():
+    return dict(SC.EXTRA)
